@@ -316,6 +316,11 @@ impl ShmWrite for ShmWriter {
             };
             generation.store(gen, atomic::Ordering::Release);
 
+            // A release *store* only orders what precedes it. Without this fence the record
+            // stores below may become visible before the odd generation (legal in the Rust/C11
+            // model, observable on ARM), and a reader could accept a half-written record.
+            atomic::fence(atomic::Ordering::Release);
+
             #[cfg(aws_clock_bound_verif)]
             verif_rt::shm::write_record(self.ceb, ceb);
             self.ceb.write(*ceb);
